@@ -87,12 +87,12 @@ def run(ctx):
         ev.write()
         return verdicts.finish()
 
-    r = vlib.tlc("MC_Sem", wd=wd, env={"MODE": "pairs"}, timeout=2400, xmx="12g")
+    # no -coverage here: cost instrumentation of the deeply recursive evaluator slows TLC down ~50x
+    r = vlib.tlc("MC_Sem", wd=wd, env={"MODE": "pairs"}, timeout=2400, xmx="16g", workers=10, coverage=False)
     vlib.require_tlc_ok(r, "SyltSem over the pairwise-nesting universe")
     cases = collect(r)
-    for act in ("InitGlobal", "CallStartA", "Emit"):
-        if r.coverage.get(act, (0, 0))[1] == 0:
-            vlib.tool_error("vacuity: action %s never taken" % act)
+    if len(cases) < 5000 or r.depth < 10:
+        vlib.tool_error("vacuity: universe too small (%d programs, depth %d)" % (len(cases), r.depth))
     ev.set(states=r.distinct, transitions=r.generated, tlc_wall_s=round(r.wall_s, 1),
            spec_invariants=["HeapOk", "GeneratorSound"])
     results, counts = replay_cases(wd, cases, ev, verdicts, "pairs")
